@@ -260,3 +260,35 @@ pub fn hex(bytes: &[u8]) -> String {
 pub fn unhex(s: &str) -> Vec<u8> {
     (0..s.len() / 2).map(|i| u8::from_str_radix(&s[2 * i..2 * i + 2], 16).unwrap_or(0)).collect()
 }
+
+/// glibc's malloc trims / munmaps every freed trace buffer; with 16 worker threads that dominates
+/// execution-heavy checks. Keep freed memory in the arena instead (no effect on verdicts).
+pub fn tune_allocator() {
+    #[cfg(all(target_os = "linux", target_env = "gnu"))]
+    {
+        extern "C" {
+            fn mallopt(param: i32, value: i32) -> i32;
+        }
+        unsafe {
+            mallopt(-1, 1 << 30); // M_TRIM_THRESHOLD
+            mallopt(-2, 64 << 20); // M_TOP_PAD
+            mallopt(-3, 32 << 20); // M_MMAP_THRESHOLD
+        }
+    }
+}
+
+impl PanicInfo {
+    /// Signature key of a panic: `file:line` for code of cf/miden-vm, crate + file (no line: the
+    /// whole validation routine is one finding) for third-party dependency code.
+    pub fn site_key(&self) -> String {
+        let s = self.site();
+        if s.starts_with("dep:") {
+            match s.rfind(':') {
+                Some(i) if i > 4 => s[..i].to_string(),
+                _ => s,
+            }
+        } else {
+            s
+        }
+    }
+}
